@@ -1,3 +1,4 @@
 //! Reference implementations used as oracles (written from the literature, independent of bacon).
 pub mod num;
+pub mod quad;
 pub mod rational;
